@@ -212,6 +212,11 @@ func helpers() string {
 	dump := "\tfmt.Printf(\"%v a=%v b=%v s=%s t=%s l=%s k=%s ll=%s as=[%s %s] ms=%s m=%s p=%s q=%s ps=%s i=%d j=%d f1=%s f2=%s e=%s al=%s\\n\",\n" +
 		"\t\text, *v.a, *v.b, fS(v, *v.s), fS(v, *v.t), fL(v, *v.l), fL(v, *v.k), fLL(v, *v.ll), fS(v, v.as[0]), fS(v, v.as[1]), fMS(v, *v.ms), fM(*v.m), fP(v, *v.p), fP(v, *v.q), fPS(v, *v.ps), *v.i, *v.j, fF(*v.f1), fF(*v.f2), fE(v, *v.e), al(v))\n"
 	fn("dump", "(v *env, ext ...int)", dump)
+	// ReturnComposite through declared functions: r := *p; (*p).<first int> = v; return r
+	for _, t := range []struct{ T, first string }{{"A", "p[0]"}, {"S", "p.N"}, {"AS", "p[0].N"}} {
+		fn("ret"+t.T, fmt.Sprintf("(p *%s, v int) %s", goType[t.T], goType[t.T]), fmt.Sprintf("\tr := *p\n\t%s = v\n\treturn r\n", t.first))
+		fn("retn"+t.T, fmt.Sprintf("(p *%s, v int) (r %s)", goType[t.T], goType[t.T]), fmt.Sprintf("\tr = *p\n\t%s = v\n\treturn\n", t.first))
+	}
 	return b.String()
 }
 
@@ -383,6 +388,14 @@ func stmt(o op) string {
 		f := map[string]string{"A": "mutA", "S": "mutS", "AS": "mutAS", "L": "mutL", "PI": "mutP"}[o.X]
 		return fmt.Sprintf("{\n\tr := %s(%s, %d)\n\tdump(v, r)\n}\n", f, S, o.V)
 	case "ReturnComposite":
+		// concrete syntax: the callee is a function literal called on the spot, a declared function, or a declared
+		// function with a named result (chosen by the operation itself)
+		switch (len(D)*7 + len(S)*3 + o.V) % 3 {
+		case 1:
+			return fmt.Sprintf("%s = ret%s(&%s, %d)\ndump(v)\n", D, o.X, S, o.V)
+		case 2:
+			return fmt.Sprintf("%s = retn%s(&%s, %d)\ndump(v)\n", D, o.X, S, o.V)
+		}
 		return fmt.Sprintf("%s = func() %s {\n\tr := %s\n\t%s = %d\n\treturn r\n}()\ndump(v)\n", D, goType[o.X], S, firstInt(o.S, o.X), o.V)
 	case "RecvAssign":
 		lhs := D
